@@ -471,5 +471,9 @@ def run(rep, facts, tier):
                 why = ('the uncopied arm is taken only when range.start == 0, the copying arm builds range 0..len: same representation either way'
                        if ok else 'Bitstr::detach returns the value unchanged when it is the sole owner and a left-aligned copy (range 0..len) when '
                        'it is shared: `start()` - and with it `open-bitstr offset` - depends on whether a snapshot holds the buffer')
+            if c == 'arcstr::arc_str::ArcStr::ptr_eq':
+                # identity of an immutable string buffer: ArcStr has no copy-on-write, Clone shares the allocation, so two handles that
+                # are identical before State::clone are identical in both copies afterwards (and no count is read)
+                ok, why = True, 'ArcStr::ptr_eq compares allocations of immutable text; cloning the interpreter shares them, the answer is the same in every copy'
             rep.add('C03.R7', 'C03.R7:refcount-observed:%s' % fn, ok, why, fn, t.get('at'))
     rep.add('C03.R7', 'C03.R7:observers-counted', True, '%d reference-count / pointer-identity reads in the crate' % n7, None, None, nontrivial=False)
